@@ -16,25 +16,25 @@ def Exh (sh : Shared) : Prop := sh.len = some sh.src.length
 structure SInv (sh : Shared) : Prop where
   cache_eq : sh.cache = sh.src.take sh.genPos
   pos_le : sh.genPos ≤ sh.src.length
-  len_ok : ∀ n, sh.len = some n → n = sh.src.length ∧ sh.genPos = sh.src.length
+  len_ok : ∀ n, sh.len = some n → n = sh.src.length ∧ sh.genPos = sh.src.length ∧ sh.endErr = none
   none_len : sh.genNone = true → sh.len ≠ none
   compl_none : sh.complete = true → sh.genNone = true
-  /-- ASSUMPTION of the positive theorems: the underlying generator never raises anything but StopIteration -/
-  noraise : sh.raises = none ∧ sh.genDead = false
 
-/-- "the consumer has received exactly the first k values and is still running" -/
-def Y (sh : Shared) (it : Iter) (k : Nat) : Prop := it.yielded = sh.src.take k ∧ it.res = none
+/-- "the consumer has received exactly the first k values, is still running and has not asked to stop" -/
+def Y (sh : Shared) (it : Iter) (k : Nat) : Prop :=
+  it.yielded = sh.src.take k ∧ it.res = none ∧ stops it.q it.yielded = false
 
 /-- invariant of one thread, by program counter -/
 def LInv (sh : Shared) (it : Iter) : Prop :=
   it.crash = none ∧
   match it.pc with
-  | .start | .l106 | .l108 | .l111 | .l125 => it.yielded = [] ∧ it.res = none
+  | .start | .l106 | .l108 | .l111 => it.yielded = [] ∧ it.res = none
+  | .l125 => it.yielded = [] ∧ it.res = none ∧ stops it.q [] = false
   | .entry => it.yielded = [] ∧ it.res = none ∧ hasEntryCheck it.q = true
   | .l107 => it.yielded = [] ∧ it.res = none ∧ sh.complete = true
   | .listIter => it.yielded ++ it.pending = sh.src ∧ it.res = none ∧ Exh sh
-  | .l126 => it.yielded = [] ∧ it.i = 0 ∧ it.res = none
-  | .l127 | .l128 | .l129 => it.yielded = [] ∧ it.i = 0 ∧ it.res = none ∧ (it.hasGen = false → Exh sh)
+  | .l126 => it.yielded = [] ∧ it.i = 0 ∧ it.res = none ∧ stops it.q [] = false
+  | .l127 | .l128 | .l129 => it.yielded = [] ∧ it.i = 0 ∧ it.res = none ∧ (it.hasGen = false → Exh sh) ∧ stops it.q [] = false
   | .l130 => Y sh it it.i ∧ it.i ≤ sh.cache.length ∧ (it.hasGen = false → Exh sh)
   | .l131 | .l132 | .l133 | .l134 | .l136 => Y sh it it.i ∧ it.i ≤ sh.cache.length ∧ it.hasGen = true
   | .l135 => Y sh it it.i ∧ Exh sh
@@ -49,22 +49,23 @@ def LInv (sh : Shared) (it : Iter) : Prop :=
   | .l148 => Y sh it it.i ∧ Exh sh ∧ it.i < sh.src.length
   | .l149 => Y sh it (it.i + 1) ∧ Exh sh ∧ it.i < sh.src.length
   | .done => it.yielded <+: sh.src ∧ (it.q = .iterAll → it.yielded = sh.src) ∧
-             (Sorted sh.src → fits it.q sh.src → it.res = some (spec it.q sh.src))
+             (Sorted sh.src → fits it.q sh.src → it.res = some (specE it.q sh.src sh.endErr))
 
 /-- how the shared state may change in one step: only forwards -/
 structure Mono (sh sh' : Shared) : Prop where
   src_eq : sh'.src = sh.src
+  err_eq : sh'.endErr = sh.endErr
   cache_le : sh.cache.length ≤ sh'.cache.length
   len_keep : Exh sh → Exh sh'
   compl_keep : sh.complete = true → sh'.complete = true
   none_keep : sh.genNone = true → sh'.genNone = true
 
-theorem Mono.refl (sh : Shared) : Mono sh sh := ⟨rfl, Nat.le_refl _, id, id, id⟩
+theorem Mono.refl (sh : Shared) : Mono sh sh := ⟨rfl, rfl, Nat.le_refl _, id, id, id⟩
 
 /-! ### facts about the shared invariant -/
 
 theorem SInv.exh_cache {sh : Shared} (hs : SInv sh) (he : Exh sh) : sh.cache = sh.src := by
-  have := (hs.len_ok _ he).2
+  have := (hs.len_ok _ he).2.1
   rw [hs.cache_eq, this, List.take_length]
 
 theorem SInv.exh_of_none {sh : Shared} (hs : SInv sh) (h : sh.genNone = true) : Exh sh := by
@@ -72,6 +73,9 @@ theorem SInv.exh_of_none {sh : Shared} (hs : SInv sh) (h : sh.genNone = true) : 
   cases hl : sh.len with
   | none => exact absurd hl this
   | some n => have := (hs.len_ok n hl).1; unfold Exh; rw [hl, this]
+
+theorem SInv.exh_noerr {sh : Shared} (hs : SInv sh) (he : Exh sh) : sh.endErr = none :=
+  (hs.len_ok _ he).2.2
 
 theorem SInv.exh_of_complete {sh : Shared} (hs : SInv sh) (h : sh.complete = true) : Exh sh :=
   hs.exh_of_none (hs.compl_none h)
@@ -121,6 +125,33 @@ where
 
 theorem gen_eq_spec (q : Query) (L : List Int) (hL : Sorted L) (hq : fits q L) : gen q L = spec q L :=
   answer_stop.gen_eq_spec' q L hL hq
+
+theorem stops_append (q : Query) (ys zs : List Int) (h : stops q ys = true) : stops q (ys ++ zs) = true := by
+  cases q with
+  | iterAll => simp [stops] at h
+  | count => simp [stops] at h
+  | take k => simp only [stops, decide_eq_true_eq, List.length_append] at h ⊢; omega
+  | index i => simp only [stops, Bool.and_eq_true, decide_eq_true_eq, List.length_append] at h ⊢; omega
+  | slice a b c =>
+    simp only [stops, Bool.and_eq_true] at h ⊢
+    refine ⟨h.1, ?_⟩
+    have h2 := h.2
+    split at h2
+    · simp only [decide_eq_true_eq, List.length_append] at h2 ⊢; omega
+    · cases h2
+  | contains x => simp only [stops, List.any_append, Bool.or_eq_true] at h ⊢; exact Or.inl h
+  | before t inc => simp only [stops, List.any_append, Bool.or_eq_true] at h ⊢; exact Or.inl h
+  | after t inc => simp only [stops, List.any_append, Bool.or_eq_true] at h ⊢; exact Or.inl h
+  | between a b inc => simp only [stops, List.any_append, Bool.or_eq_true] at h ⊢; exact Or.inl h
+  | xafter t n inc =>
+    cases n with
+    | none => simp [stops] at h
+    | some c => simp only [stops, decide_eq_true_eq, List.filter_append, List.length_append] at h ⊢; omega
+
+theorem specE_of_stops {q : Query} {src : List Int} (e : Option PyErr) (h : stops q src = true) : specE q src e = spec q src := by
+  cases e with
+  | none => rfl
+  | some e => simp only [specE, h, ↓reduceIte]
 
 theorem answer_all {sh : Shared} {q : Query} (he : Exh sh) (hsorted : Sorted sh.src) (hq : fits q sh.src) :
     answer sh q sh.src = spec q sh.src := by
